@@ -106,7 +106,8 @@ pub fn configs(prop: &str, thorough: bool) -> Vec<(Cfg, Option<usize>)> {
                 c.amounts = vec![0, 1, 2];
                 c.mint_amounts = vec![1];
                 c.grant_cap = Some(2);
-                c.kinds = kinds(&["Transfer", "Send", "Burn", "Mint", "Inc", "TransferFrom", "SendFrom", "BurnFrom"]);
+                c.kinds = kinds(&["Transfer", "Send", "Burn", "Mint", "Inc", "TransferFrom", "SendFrom", "BurnFrom", "Marketing"]);
+                c.marketing = Some(0);
                 out.push((c, None));
             }
             // many accounts carried through an upgrade from every pre-0.14 layout (batch boundaries at 10, 30)
@@ -229,6 +230,28 @@ pub fn configs(prop: &str, thorough: bool) -> Vec<(Cfg, Option<usize>)> {
                 out.push((c, None));
             }
             {
+                // entry points that are not about moving one's own tokens: mints, minter changes, marketing calls,
+                // and the token contract itself as recipient — nobody's balance may fall through them
+                let mut c = mk("C02/closed/other-entry-points");
+                c.actors = vec!["A", "B", "S1", "token"];
+                c.initial = vec![(0, 2)];
+                c.mint = Some((1, Some(3)));
+                c.marketing = Some(1);
+                c.senders = vec![0];
+                c.recipients = vec![2, 3];
+                c.owners = vec![0];
+                c.spenders = vec![2];
+                c.minters = vec![1, 2];
+                c.mint_to = vec![0, 3];
+                c.amounts = vec![1, 2];
+                c.mint_amounts = vec![1];
+                c.exps = vec![ExpA::Unset];
+                c.grant_cap = Some(2);
+                c.hmax = H0;
+                c.kinds = kinds(&["Transfer", "Inc", "TransferFrom", "Mint", "UpdateMinter", "Marketing"]);
+                out.push((c, None));
+            }
+            {
                 // cumulative monitor (history in state): depth-bounded
                 let mut c = mk("C02/monitor/granted-vs-drawn");
                 c.initial = vec![(0, 3)];
@@ -294,6 +317,10 @@ pub fn configs(prop: &str, thorough: bool) -> Vec<(Cfg, Option<usize>)> {
                     c.owners = vec![4];
                     c.spenders = vec![0];
                     c.grant_cap = Some(2);
+                }
+                if n == "cap=initial+2" {
+                    c.marketing = Some(1);
+                    c.kinds.insert("Marketing");
                 }
                 // upgrades must not touch the minter or the cap: migrate from every old layout at every state
                 c.migrate_probe = true;
@@ -424,14 +451,15 @@ pub fn configs(prop: &str, thorough: bool) -> Vec<(Cfg, Option<usize>)> {
                 c.exps = vec![ExpA::Unset, ExpA::H(H0 + 1)];
                 c.grant_cap = Some(2);
                 c.hmax = H0 + 1;
-                c.kinds = kinds(&["Inc", "Transfer", "Send", "Burn", "Mint", "UpdateMinter", "TransferFrom", "BurnFrom"]);
+                c.kinds = kinds(&["Inc", "Transfer", "Send", "Burn", "Mint", "UpdateMinter", "TransferFrom", "BurnFrom", "Marketing"]);
+                c.marketing = Some(1);
                 if !thorough {
                     c.senders = vec![0];
                     c.recipients = vec![1, 3];
                     c.owners = vec![0];
                     c.spenders = vec![2];
                     c.minters = vec![1];
-                    c.kinds = kinds(&["Inc", "Transfer", "Send", "Burn", "Mint", "TransferFrom", "BurnFrom"]);
+                    c.kinds = kinds(&["Inc", "Transfer", "Send", "Burn", "Mint", "TransferFrom", "BurnFrom", "Marketing"]);
                 }
                 out.push((c, None));
             }
